@@ -92,6 +92,18 @@ def echo_set(rng, spec):
     return out
 
 
+def gen_echo_probe(rng, tag, writer):
+    """[shared writer: a set, its near copy, the set, the near copy]"""
+    a = capsets.rich_set(rng, tag + '.a', layout_fn=geom.pct_layout, p_layout=0.3, max_caps=3, weird_names=False)
+    b = echo_set(rng, a)
+    while True:
+        cfg = gen_writer_cfg(rng)
+        if cfg['writer'] == writer:
+            break
+    return {'kind': 'history', 'sets': [a, b], 'cfgs': [cfg],
+            'ops': [{'cfg': 0, 'set': k % 2, 'kw': {}, 'fresh': False} for k in range(4)]}
+
+
 def gen_history(rng, tag):
     nsets = rng.randrange(2, 5)
     sets = []
@@ -265,6 +277,9 @@ def cases(ctx):
         if writer != 'SCCWriter':
             # in every shard: the state a shard process has accumulated differs from shard to shard
             yield gen_level_probe(rng, f'L{ctx.shard}.{k}', writer)
+    for k, writer in enumerate(ALL_WRITERS):
+        for rep in range(2):
+            yield gen_echo_probe(rng, f'E{ctx.shard}.{k}.{rep}', writer)
     for k, writer in enumerate(ALL_WRITERS):
         if ctx.mine(k * 17 + 5):
             yield gen_raise_probe(rng, f'R{ctx.shard}.{k}', writer)
